@@ -1,5 +1,7 @@
 import ArcSwapModel.M.Frame
 import ArcSwapModel.Tie.HybridCas
+import ArcSwapModel.Tie.RwCas
+import ArcSwapModel.Tie.RwLoad
 import ArcSwapModel.Tie.HybridLoad
 import ArcSwapModel.Tie.HybridWaitForReaders
 import ArcSwapModel.Tie.HybridDrop
